@@ -476,3 +476,116 @@ Proof.
   split; [exact Hne|].
   destruct (add_loop_victims_gone _ _ _ _ _ _ _ _ _ _ _ _ _ _ _ _ _ _ Hrun Hx Hne) as [Hin|]; auto. inversion Hin.
 Qed.
+
+(* ================================================================================================
+   Termination of the eviction loop: the fuel of pol_add is never exhausted
+   ================================================================================================ *)
+Local Open Scope nat_scope.
+Definition stale (costs : gmap N Z) (s : list (N * Z)) : nat :=
+  length (List.filter (fun x => bool_decide (costs !! x.1 = None)) s).
+
+Lemma filter_length_perm' {A} (f : A -> bool) l1 l2 : l1 ≡ₚ l2 -> length (List.filter f l1) = length (List.filter f l2).
+Proof.
+  induction 1; simpl; auto.
+  - destruct (f x); simpl; lia.
+  - destruct (f x), (f y); simpl; lia.
+  - lia.
+Qed.
+
+(* sample[i] = sample[last]; sample = sample[:last]  removes exactly the i-th element *)
+Lemma remove_swap_perm {A} (s : list A) i x : s !! i = Some x -> remove_swap s i ≡ₚ delete i s.
+Proof.
+  intros Hi. unfold remove_swap.
+  assert (Hlt : (i < length s)%nat) by (eapply lookup_lt_Some; eauto).
+  destruct (s !! (length s - 1)%nat) as [l|] eqn:El.
+  2: { apply lookup_ge_None in El. lia. }
+  destruct (decide (i = length s - 1)%nat) as [->|Hne].
+  - rewrite list_insert_id by exact El. rewrite delete_take_drop.
+    rewrite (drop_ge s (S (length s - 1))) by lia. now rewrite app_nil_r.
+  - rewrite take_insert_lt by lia.
+    assert (Hs : s = take (length s - 1) s ++ [l]).
+    { rewrite <- (take_drop_middle s (length s - 1) l El) at 1.
+      rewrite (drop_ge s (S (length s - 1))) by lia. reflexivity. }
+    set (t := take (length s - 1) s) in *.
+    assert (Hti : t !! i = Some x).
+    { subst t. rewrite lookup_take by lia. exact Hi. }
+    assert (Htl : (i < length t)%nat) by (eapply lookup_lt_Some; eauto).
+    clearbody t. rewrite Hs. rewrite delete_take_drop.
+    rewrite take_app_le by lia. rewrite drop_app_le by lia.
+    rewrite insert_take_drop by lia.
+    apply Permutation_app_head. rewrite (Permutation_app_comm (drop (S i) t) [l]). reflexivity.
+Qed.
+
+Lemma stale_remove_swap costs (s : list (N * Z)) i x : s !! i = Some x ->
+  stale costs (remove_swap s i) + (if bool_decide (costs !! x.1 = None) then 1 else 0) = stale costs s.
+Proof.
+  intros Hi. unfold stale. rewrite (filter_length_perm' _ _ _ (remove_swap_perm s i x Hi)).
+  rewrite <- (take_drop_middle s i x Hi) at 2. rewrite delete_take_drop.
+  rewrite !filter_app, !app_length. simpl. destruct (bool_decide (costs !! x.1 = None)); simpl; lia.
+Qed.
+
+Lemma stale_fill costs order s : stale costs (fill_sample costs order s) = stale costs s.
+Proof.
+  revert s; induction order as [|k rest IH]; intros s; cbn [fill_sample].
+  - destruct (lfu_sample <=? length s)%nat; reflexivity.
+  - destruct (lfu_sample <=? length s)%nat; [reflexivity|].
+    destruct (costs !! k) eqn:E; [|apply IH].
+    rewrite IH. unfold stale. rewrite filter_app, app_length. simpl.
+    rewrite bool_decide_false by (rewrite E; discriminate). simpl. lia.
+Qed.
+
+Lemma stale_delete_le costs k (s : list (N * Z)) : stale (delete k costs) s <= stale costs s + length s.
+Proof.
+  unfold stale. induction s as [|x s IH]; simpl; [lia|].
+  destruct (bool_decide (delete k costs !! x.1 = None)), (bool_decide (costs !! x.1 = None)); simpl; lia.
+Qed.
+
+Lemma stale_le_length costs (s : list (N * Z)) : stale costs s <= length s.
+Proof. unfold stale. induction s as [|x s IH]; simpl; [lia|]. destruct (bool_decide _); simpl; lia. Qed.
+
+Lemma remove_swap_length_lt {A} (s : list A) i x : s !! i = Some x -> length (remove_swap s i) = (length s - 1)%nat.
+Proof.
+  intros Hi. rewrite (Permutation_length (remove_swap_perm s i x Hi)).
+  rewrite length_delete by eauto. reflexivity.
+Qed.
+
+Lemma add_loop_terminates fuel : forall orders est key cost inc p m sample victims rounds,
+  (length sample <= lfu_sample)%nat ->
+  (6 * size (p_costs p) + stale (p_costs p) sample < fuel)%nat ->
+  add_loop fuel orders est key cost inc p m sample victims rounds <> AddOutOfFuel.
+Proof.
+  induction fuel as [|fuel IH]; intros orders est key cost inc p m sample victims rounds Hlen Hf; [lia|].
+  simpl. destruct (0 <=? room_left p cost)%Z; [discriminate|].
+  set (order := match orders with o :: _ => o | [] => (map_to_list (p_costs p)).*1 end).
+  set (sample1 := fill_sample (p_costs p) order sample).
+  assert (Hl1 : (length sample1 <= lfu_sample)%nat).
+  { subst sample1. etrans; [apply fill_sample_length|]. lia. }
+  assert (Hst1 : stale (p_costs p) sample1 = stale (p_costs p) sample) by apply stale_fill.
+  destruct (min_entry est sample1 0 None) as [[[[i mk] mc] mh]|] eqn:Emin; [|discriminate].
+  destruct (inc <? mh)%Z; [discriminate|].
+  pose proof (min_entry_spec est sample1 0 None _ Emin) as (Hsel & _ & _). simpl in Hsel.
+  destruct Hsel as [Hsel|(_ & Hi & _)]; [discriminate|]. rewrite Nat.sub_0_r in Hi.
+  destruct (pol_del p m mk) as [p' m'] eqn:Edel.
+  assert (Hp' : p_costs p' = delete mk (p_costs p)).
+  { pose proof (pol_del_costs p m mk) as H. now rewrite Edel in H. }
+  pose proof (stale_remove_swap (p_costs p) sample1 i (mk, mc) Hi) as Hrs. simpl in Hrs.
+  pose proof (remove_swap_length_lt sample1 i (mk, mc) Hi) as Hrl.
+  assert (Hpos : (0 < length sample1)%nat) by (apply lookup_lt_Some in Hi; lia).
+  apply IH.
+  - unfold lfu_sample in *. lia.
+  - rewrite Hp'. destruct (p_costs p !! mk) as [c0|] eqn:Ek.
+    + rewrite map_size_delete, Ek.
+      assert (Hs : (0 < size (p_costs p))%nat).
+      { destruct (size (p_costs p)) eqn:Es; [|lia]. apply map_size_empty_inv in Es. rewrite Es in Ek.
+        rewrite lookup_empty in Ek. discriminate. }
+      rewrite bool_decide_false in Hrs by discriminate.
+      pose proof (stale_delete_le (p_costs p) mk (remove_swap sample1 i)). unfold lfu_sample in *. lia.
+    + rewrite delete_notin by exact Ek. rewrite bool_decide_true in Hrs by reflexivity. lia.
+Qed.
+
+Theorem pol_add_terminates orders est p m key cost : pol_add orders est p m key cost <> AddOutOfFuel.
+Proof.
+  unfold pol_add. destruct (p_max p <? cost)%Z; [discriminate|].
+  destruct (pol_update_if_has p m key cost) as [[has p1] m1] eqn:Eu. destruct has; [discriminate|].
+  apply add_loop_terminates; [simpl; lia|]. unfold add_fuel, stale. simpl. lia.
+Qed.
